@@ -1,5 +1,18 @@
 """Which contract families decide which property, and at what claimed level."""
 PROPS = {
+    'C07': {
+        'families': ['contracts.execution'],
+        'level': 'proof',
+        'technique': 'contract-based deductive verification with ghost transaction/run monitors: VCs from the real AST, z3/cvc5',
+        'text': 'Transaction monitor on SQLExecutor (__enter__/__exit__/new_transaction/finish_transaction/ensure_transaction/'
+                'run_sql): never commit on the exceptional path, every statement of a transactional batch runs inside a '
+                'transaction opened on the executor\'s own database, the raised error carries the failing statement; '
+                'run monitor on Evolver.evolve. All statement lists, all failure points.',
+        'level_note': "Trusted: pyvc engine/encoding; Django's Atomic semantics (commit on clean exit, rollback when exception "
+                      'info is passed), cursor.execute may raise anything, SQLite DDL is transactional (the property\'s own '
+                      'hypothesis); generators treated as eager lists; capture rendering abstracted.',
+        'not_decided': ['that a retry equals an uninterrupted run needs determinism of the whole pipeline (only partly C14)'],
+    },
     'C16': {
         'families': ['contracts.routing'],
         'level': 'proof',
